@@ -346,13 +346,13 @@ func ruleC16Accounting(c *Ctx) {
 	// per-arm producers: the value written for an int part, by asserted argument type
 	producers := map[string]string{}
 	tbd := NewTB()
-	allInstrs(f, func(_ *ssa.BasicBlock, in ssa.Instruction) {
+	deepInstrs(f, func(_ *ssa.Function, tb *TB, _ *ssa.BasicBlock, in ssa.Instruction) {
 		call, ok := in.(*ssa.Call)
 		if !ok || call.Common().StaticCallee() == nil {
 			return
 		}
 		for _, a := range call.Common().Args {
-			t := tbd.Of(a)
+			t := tb.Of(a)
 			if t.Op == "ext" && t.Name == "0" && t.Args[0].Op == "assertok" && strings.Contains(t.String(), "args[") {
 				producers[t.Args[0].Name] = funcName(call.Common().StaticCallee())
 			}
